@@ -98,8 +98,9 @@ func (c *Ctx) undecided(rule, construct, witness, pos string) {
 func (c *Ctx) count(k string, n int) { c.Counters[k] += n }
 
 // loadKnown reads /verif/known-findings.txt. Lines:
-//   finding: property=C16 rule=<rule> construct=<construct> :: <what fails>
-//   fixed: property=<id> <commit> <what failed>        (suppresses nothing)
+//
+//	finding: property=C16 rule=<rule> construct=<construct> :: <what fails>
+//	fixed: property=<id> <commit> <what failed>        (suppresses nothing)
 func loadKnown(path string) (map[string]string, error) {
 	m := map[string]string{}
 	f, err := os.Open(path)
